@@ -37,6 +37,7 @@ using namespace vrt;
 #if VRT_ASAN
 // vrt's per-thread hook records are never freed by design; records of threads that have exited would be reported.
 extern "C" const char* __lsan_default_suppressions() { return "leak:vrt::hook_thread\n"; }
+extern "C" int __lsan_do_recoverable_leak_check();
 #endif
 
 static const auto RLX = std::memory_order_relaxed;
@@ -88,6 +89,23 @@ static inline void delay(int d) {
     if (d == 100000) { sched_yield(); return; }
     sleep_us((unsigned)(d - 100000));
 }
+
+// ------------------------------------------------------------------------------------------------ start gate
+// Few threads: spinning barrier (they really start together). Many threads (more than cores): a yielding barrier costs millions of
+// context switches, so early arrivals block on a futex and the last one wakes them all.
+#include <linux/futex.h>
+#include <climits>
+struct Gate {
+    std::atomic<int> count{0}, gen{0}; int n; bool spin;
+    Gate(int n_, bool spin_) : n(n_), spin(spin_) {}
+    void wait() {
+        int g = gen.load();
+        if (count.fetch_add(1) + 1 == n) { count.store(0); gen.fetch_add(1); if (!spin) syscall(SYS_futex, reinterpret_cast<int*>(&gen), FUTEX_WAKE_PRIVATE, INT_MAX, nullptr, nullptr, 0); return; }
+        if (spin) { int spins = 0; while (gen.load() == g) { if (++spins > 200) sched_yield(); else _mm_pause(); } }
+        else while (gen.load() == g) syscall(SYS_futex, reinterpret_cast<int*>(&gen), FUTEX_WAIT_PRIVATE, g, nullptr, nullptr, 0);
+    }
+};
+static int g_spin_max = 12;     // largest group released through the spinning barrier
 
 // ------------------------------------------------------------------------------------------------ persistent thread pool
 // Idle threads block without a timeout (condition variable) so that a wedged scenario lets the process become quiescent.
@@ -280,7 +298,7 @@ static void once_caller(OnceScen& s, CallerRec& me) {
     progress();
 }
 
-static void once_driver(OnceScen& s, int di, Barrier& bar) {
+static void once_driver(OnceScen& s, int di, Gate& bar) {
     const DriverSpec& d = s.drivers[di];
     if (d.kind == D_DIRECT) warm_thread();
     bar.wait();
@@ -404,7 +422,7 @@ static inline void touch(Elem* q, PartRec& r, int spin) {
     r.incs++;
 }
 
-template <class C> static void ets_part(EtsScen& s, C& c, PartRec& r, Barrier& bar) {
+template <class C> static void ets_part(EtsScen& s, C& c, PartRec& r, Gate& bar) {
     r.id = my_idhash();
     int i0 = tl_inits;
     bar.wait();
@@ -523,7 +541,7 @@ template <class C> static void run_ets_threads(EtsScen& s, Rng& r, Shadow& sh) {
             pr.pre = p < 60 ? 0 : p < 92 ? (int)r.below(1500) : 100000;
             pr.fresh = i >= (int)ws.pool.size();
         }
-        Barrier bar(n);
+        Gate bar(n, n <= g_spin_max);
         s.cur_wave = (int)w;
         std::vector<std::thread> fresh;
         C& cr = *c;
@@ -578,7 +596,7 @@ template <class C> static void run_ets_workers(EtsScen& s, Rng& r, Shadow& sh) {
     for (int round = 0; round < rounds; round++) {
         uint32_t mask = 0; for (int i = 0; i < s.ndrv; i++) if (g_arenas[s.drv_arena[i]].conc >= 2) mask |= 1u << s.drv_arena[i];
         g_hot_mask.store(mask, RLX);
-        Barrier bar(s.ndrv);
+        Gate bar(s.ndrv, true);
         std::vector<int> idx; for (int i = 0; i < s.ndrv; i++) idx.push_back(i);
         int spin = (int)r.below(3) * 30;
         s.cur_wave = round;
@@ -648,6 +666,7 @@ int main(int argc, char** argv) {
     std::string mode = R.mode;
     int maxthreads = (int)a.num("maxthreads", cpus > 0 ? 24 : R.variant == "tsan" ? 48 : R.variant == "asan" ? 72 : 136);
     g_fresh_budget = a.num("fresh", 2500);
+    g_spin_max = cpus > 0 ? 4 : 12;
     Rng top(mix(R.seed, 0xC19));
     tbb::global_control gc(tbb::global_control::max_allowed_parallelism, 16);
     if (!g_light) set_point_observer(observer);
@@ -660,7 +679,9 @@ int main(int argc, char** argv) {
     warm_thread();
     int once_samples = 0, ets_samples = 0;
 
-    watchdog_start(WatchdogCfg{}, [&](const HangInfo& hi) {
+    WatchdogCfg wcfg;
+    if (mode == "oncex") wcfg.hard_limit_s = 1200;      // the spinning winners yield: on a loaded box 10 s of CPU each take long
+    watchdog_start(wcfg, [&](const HangInfo& hi) {
         OnceScen* os = g_once.load(); EtsScen* es = g_ets.load();
         std::string d = "no progress for " + std::to_string(hi.stalled_for) + "s; threads: " + hi.threads + "\n" + rings_dump();
         std::string key, scen = "{}";
@@ -675,6 +696,7 @@ int main(int argc, char** argv) {
             for (size_t w = 0; w < es->recs.size(); w++) for (int i = 0; i < es->nparts[w]; i++) in_local += es->recs[w][i].in_local.load();
             scen = es->describe();
             if (in_local > 0) key = "c19.ets.hang";      // local() never waits for another thread beyond a bounded CAS retry
+            else if (es->workers && es->cur_wave >= 0) key = "c19.etsw.hang";   // the parallel_for bodies do nothing but local() and a private update
             d = "threads inside local(): " + std::to_string(in_local) + "; " + d;
         }
         if ((!hi.quiescent && !hi.spin_stall) || key.empty()) { R.inconclusive++; fprintf(stderr, "[c19] watchdog: inconclusive stall\n%s\n", d.substr(0, 3000).c_str()); R.finish_and_exit(4); }
@@ -702,7 +724,7 @@ int main(int argc, char** argv) {
             g_hot_mask.store(mask, RLX);
             g_once.store(&s);
             perturb_random(top, once_ids);
-            Barrier bar(nd);
+            Gate bar(nd, nd <= g_spin_max);
             std::vector<int> idx; for (int i = 0; i < nd; i++) idx.push_back(i);
             pool_start(idx, [&s, &bar](int t) { once_driver(s, t, bar); });
             pool_wait();
@@ -807,5 +829,10 @@ int main(int argc, char** argv) {
     watchdog_stop();
     R.stat("hook_delays", (long long)perturb().delays.load());
     R.stat("keeper_tasks", g_k_ran.load());
+#if VRT_ASAN
+    // the process leaves through _exit (threads are alive), so the leak check is run by hand: containers, flags and table arrays
+    // of every finished scenario must have been released
+    if (__lsan_do_recoverable_leak_check()) R.stat("lsan_leak_reports");
+#endif
     R.finish_and_exit(0);      // pool threads, keeper, arenas and workers are still alive: leave without static destructors
 }
